@@ -115,12 +115,13 @@ Definition visit_ident (id : N) (x : st) : st := if live_now x then add_hoist x 
 Definition visit_e (e : expr) (x : st) : st :=
   match e with
   | EIdent id => visit_ident id x
-  | ECall id => visit_lit (visit_ident id x)
+  | ECall id | ESpread id | EComputed id => visit_lit (visit_ident id x)
   | ELit => visit_lit x
   | EThis => x
   end.
 (* the test of a switch case (fn visit_switch_case, first line): visited in the scope of the switch *)
 Definition visit_test (t : option expr) (x : st) : st := match t with Some e => visit_e e x | None => x end.
+Definition visit_oe (o : option expr) (x : st) : st := match o with Some e => visit_e e x | None => x end.
 Definition visit_cond (c : cond) (x : st) : st :=
   match c with
   | COpaque e => visit_e e x
@@ -451,7 +452,8 @@ Fixpoint an (s : stmt) (x0 : st) {struct s} : st :=
       visit_if_else p c (pos s1) (fun a => orb_mark s1 (an s1 a)) (pos s2) (fun a => orb_mark s2 (an s2 a)) x
   | SWhile p c b => visit_while c (pos b) (an b) x
   | SDoWhile p b c => visit_do_while p c (pos b) (an b) x
-  | SFor p c b => visit_for p c (pos b) (an b) x
+  (* fn visit_for_stmt: init, update, test, then the body *)
+  | SFor p i c u b => visit_for p c (pos b) (an b) (visit_oe u (visit_oe i x))
   | SForIn p b | SForOf p b => visit_for_in (pos b) (an b) x
   | SForHead p _ fp pb hb b => visit_for_in (pos b) (an b) (visit_for_head fp pb (an_list hb) x)
   | SSwitch p cs => visit_switch p cs (an_cases cs) x
@@ -490,7 +492,7 @@ Fixpoint all_stmts (s : stmt) : list stmt :=
        | SForHead _ _ _ _ hb b => all_stmts_l hb ++ all_stmts b
        | SIf _ _ a => all_stmts a
        | SIfElse _ _ a b => all_stmts a ++ all_stmts b
-       | SWhile _ _ b | SDoWhile _ b _ | SFor _ _ b | SForIn _ b | SForOf _ b | SLabel _ _ b => all_stmts b
+       | SWhile _ _ b | SDoWhile _ b _ | SFor _ _ _ _ b | SForIn _ b | SForOf _ b | SLabel _ _ b => all_stmts b
        | SSwitch _ cs => all_stmts_c cs
        | STry _ _ blk _ hb _ fb => all_stmts_l blk ++ all_stmts_l hb ++ all_stmts_l fb
        | _ => []
@@ -522,7 +524,7 @@ Fixpoint bare_returns (s : stmt) : list N :=
   | SBlock _ b => bare_returns_l b
   | SIf _ _ a => bare_returns a
   | SIfElse _ _ a b => bare_returns a ++ bare_returns b
-  | SWhile _ _ b | SDoWhile _ b _ | SFor _ _ b | SForIn _ b | SForOf _ b | SLabel _ _ b
+  | SWhile _ _ b | SDoWhile _ b _ | SFor _ _ _ _ b | SForIn _ b | SForOf _ b | SLabel _ _ b
   | SForHead _ _ _ _ _ b => bare_returns b
   | SSwitch _ cs => bare_returns_c cs
   | STry _ _ blk _ hb _ fb => bare_returns_l blk ++ bare_returns_l hb ++ bare_returns_l fb
@@ -541,7 +543,7 @@ Fixpoint getters (s : stmt) : list (N * N * stmts) :=
   | SFnDecl _ _ _ b | SArrowStmt _ _ b | SBlock _ b => getters_l b
   | SIf _ _ a => getters a
   | SIfElse _ _ a b => getters a ++ getters b
-  | SWhile _ _ b | SDoWhile _ b _ | SFor _ _ b | SForIn _ b | SForOf _ b | SLabel _ _ b => getters b
+  | SWhile _ _ b | SDoWhile _ b _ | SFor _ _ _ _ b | SForIn _ b | SForOf _ b | SLabel _ _ b => getters b
   | SSwitch _ cs => getters_c cs
   | STry _ _ blk h hb f fb =>
       getters_l blk ++ (match h with Some _ => getters_l hb | None => [] end)
